@@ -12,6 +12,8 @@ import (
 	"verif/evid"
 	"verif/kit"
 
+	"github.com/junioryono/godi/v4"
+
 	"pgregory.net/rapid"
 )
 
@@ -955,6 +957,15 @@ func TestC13Closed(t *testing.T) {
 			}
 			nt = true
 			col.Label("ops-after-provider-close")
+		} else if rapid.Bool().Draw(rt, "rootHandle") {
+			// the provider's own root scope is a scope like any other once somebody holds it (it is
+			// what Get(Scope) on the provider yields and what singletons are injected with): Close
+			// on that handle closes it, and afterwards it refuses use
+			if f := x.closeRootHandle(rt, ids); f != nil {
+				rt.Fatalf("VIOLATION %s\n%s", f, x.describe())
+			}
+			nt = true
+			col.Label("root-scope-closed-through-its-handle")
 		}
 		for _, o := range x.R.Obs {
 			if (o.Kind == "resolve" || o.Kind == "create") && o.Err != nil && kit.IsScopeDisposed(o.Err) {
@@ -984,6 +995,74 @@ func TestC13Closed(t *testing.T) {
 }
 
 var _ = errors.Is
+
+// closeRootHandle: see TestC13Closed.
+func (x *run) closeRootHandle(rt *rapid.T, ids []kit.Ident) *Failure {
+	v, err := x.R.P.Get(kit.ScopeType)
+	root, ok := v.(godi.Scope)
+	if err != nil || !ok {
+		return fail("C13", "root-handle", "get", "provider.Get(Scope) = %T, %v", v, err)
+	}
+	bounded := func(what string, fn func() error) (error, *Failure) {
+		done := make(chan struct{})
+		var cerr error
+		var pv any
+		go func() {
+			defer close(done)
+			defer func() { pv = recover() }()
+			cerr = fn()
+		}()
+		if !kit.WaitOrTimeout(done, 10*time.Second) {
+			return nil, fail("C13", "no-hang", "root-handle/"+what, "%s on the root scope obtained through provider.Get(Scope) has not returned after 10 s", what)
+		}
+		if pv != nil {
+			return nil, fail("C13", "no-panic", "root-handle/"+what, "%s on the root scope handle panicked: %v", what, pv)
+		}
+		return cerr, nil
+	}
+	if _, f := bounded("Close", root.Close); f != nil {
+		return f
+	}
+	refused := func(what string, err error) *Failure {
+		if err == nil {
+			return fail("C13", "closed-after-return", "root-handle/"+what, "%s on the provider's root scope succeeded after Close on that scope had returned", what)
+		}
+		if !kit.IsScopeDisposed(err) && !kit.IsDisposed(err) {
+			return fail("C13", "documented-error", "root-handle/"+what, "%s on the closed root scope failed with %v, want the disposed error", what, firstLine(err))
+		}
+		return nil
+	}
+	for i := 0; i < 3 && len(ids) > 0; i++ {
+		id := rapid.SampledFrom(ids).Draw(rt, "rootid")
+		var err error
+		switch {
+		case id.Group != "":
+			_, err = root.GetGroup(kit.RType(id.T), id.Group)
+		case id.Key != "":
+			_, err = root.GetKeyed(kit.RType(id.T), id.Key)
+		default:
+			_, err = root.Get(kit.RType(id.T))
+		}
+		if f := refused(fmt.Sprintf("Get(%s)", id), err); f != nil {
+			return f
+		}
+	}
+	child, err := root.CreateScope(context.Background())
+	if err == nil && child != nil {
+		_ = child.Close()
+	}
+	if f := refused("CreateScope", err); f != nil {
+		return f
+	}
+	again, f := bounded("a second Close", root.Close)
+	if f != nil {
+		return f
+	}
+	if again != nil {
+		return fail("C13", "idempotent", "root-handle", "a second Close on the root scope handle returned %v, want nil", firstLine(again))
+	}
+	return nil
+}
 
 // ---------- C10: Build cancelled through its context ----------
 
